@@ -78,6 +78,10 @@ Step ==
                                 \* the serving node talked to a peer through a connection it had closed itself (C20: reachability)
                                 \cup (IF t.closed = 1 THEN {<<l, "PeerUnreachable">>} ELSE {})
                            /\ UNCHANGED <<cat, mem, maybe, ref, order, descr>>
+       \* writes to a partition whose raft group has lost its quorum (C11: "if ... the proposal is not applied in time it
+       \* returns an error"): none of them is acknowledged
+       [] t.ev = "noquorum" -> /\ viol' = viol \cup (IF t.acked > 0 THEN {<<l, "AckedWithoutQuorum">>} ELSE {})
+                               /\ UNCHANGED <<cat, mem, maybe, ref, order, descr, wlive, wmaybe>>
        [] t.ev = "found" -> LET got == {t.ids[j] : j \in 1..Len(t.ids)} IN
                             /\ viol' = viol \cup (IF t.closed = 1 THEN {<<l, "PeerUnreachable">>} ELSE {})
                                             \cup (IF t.err # "" THEN {<<l, "SearchUnavailable">>}
